@@ -24,7 +24,9 @@ var binToks = []token.Token{token.ADD, token.SUB, token.MUL, token.QUO, token.RE
 	token.LAND, token.LOR, token.EQL, token.LSS, token.GTR, token.NEQ, token.LEQ, token.GEQ}
 var unToks = []token.Token{token.ADD, token.SUB, token.NOT, token.XOR, token.MUL, token.AND, token.ARROW}
 
-func (g *ASTGen) name() string { return h.Pick(g.R, []string{"a", "b", "c", "x", "y", "f", "g", "p", "s", "m", "ch", "T", "pkg"}) }
+func (g *ASTGen) name() string {
+	return h.Pick(g.R, []string{"a", "b", "c", "x", "y", "f", "g", "p", "s", "m", "ch", "T", "pkg"})
+}
 
 func (g *ASTGen) lit() ast.Expr {
 	switch g.R.Intn(6) {
